@@ -16,7 +16,7 @@ ASSUMPTIONS = ["x tolerance (8+2S)*eps*max(1,|x|,|bounds|) with S = number of ba
                "resid tolerance 8*eps*k*max|r| for k samples; obj tolerance 16*eps*(sum r^2 + |h|)",
                "h is recomputed by the harness from the regulariser's parameters"]
 
-PROF = sc.make_prof(reg=0.15, zero_resid=0.15, diag=0.2, proj=0.1)
+PROF = sc.make_prof(reg=0.15, zero_resid=0.15, diag=0.2, proj=0.1, reg_with_scaling=True)      # C03 is about bookkeeping, not optimality: regulariser + scaling is in its domain
 
 
 MARK = "[soln.x is the projection routine's output for the evaluated point: re-projection]"
